@@ -34,7 +34,10 @@ uint64_t splitmix(uint64_t& s) {
     return z ^ (z >> 31);
 }
 
-const char* const TYPE_NAME[] = {"int", "key+tag", "heap-record"};
+const char* const TYPE_NAME[] = {"int", "key+tag", "heap-record",
+                                 // target mergesort_iters (all with a comparator owning state)
+                                 "deque<key+tag>", "reverse_iterator<vector<key+tag>>", "deque<string-record>", "pointer-range<string-record>"};
+inline bool lifetime_checked(int ty) { return ty == 2 || ty == 5 || ty == 6; }
 const char* const VCLASS_NAME[] = {"all-equal", "2-4-distinct", "wide", "medium-dups", "sawtooth", "blocks"};
 const char* const ARR_NAME[] = {"as-drawn", "sorted", "reversed"};
 
@@ -142,7 +145,18 @@ void check_case(int ty, const Params& p, const std::vector<Item>& in, const char
         }
     }
     if (dup_across) pbt::label("dup-across-slices");
-    if (ty == 2 && n >= 2) pbt::label("lifetime-checked");
+    if (lifetime_checked(ty) && n >= 2) pbt::label("lifetime-checked");
+    if (ty >= 3) {
+        pbt::label("cmp_owning_state");
+        const size_t blk = ty >= 5 ? 512 / 40 : 512 / 8; // elements per 512-byte deque block (sizeof(StrRec) == 40, sizeof(KT) == 8)
+        if (ty == 3 || ty == 5) {
+            pbt::label((p.layout / 9) % (blk + 3) % blk != 0 ? "deque_begin_mid_block" : "deque_begin_at_block_start");
+            if (n > blk) pbt::label("range_spans_2+_deque_blocks");
+            if (t_eff >= 2 && n / t_eff > blk) pbt::label("slice_longer_than_deque_block");
+        }
+        if (p.layout % 3 != 0) pbt::label("guards_before_range");
+        if ((p.layout / 3) % 3 != 0) pbt::label("guards_behind_range");
+    }
     bool nt = t_eff >= 2 && n >= 2 * t_eff && dup_across;
     if (nt) {
         pbt::nontrivial();
@@ -171,11 +185,15 @@ void check_case(int ty, const Params& p, const std::vector<Item>& in, const char
     switch (ty) {
     case 0: lt = c06::sort_int(p, out); break;
     case 1: lt = c06::sort_kt(p, out); break;
-    default: lt = c06::sort_rec(p, out); break;
+    case 2: lt = c06::sort_rec(p, out); break;
+    case 3: lt = c06::sort_deque_kt(p, out); break;
+    case 4: lt = c06::sort_rev_kt(p, out); break;
+    case 5: lt = c06::sort_deque_str(p, out); break;
+    default: lt = c06::sort_ptr_str(p, out); break;
     }
     if (pbt::verbose()) {
         if (n <= 80) PBT_LOG("output key#tag: " << show_items(out) << "\n");
-        if (ty == 2)
+        if (lifetime_checked(ty))
             PBT_LOG("live instances: before=" << lt.live_before << " after=" << lt.live_after << " end=" << lt.live_end
                                              << " constructed-by-sort=" << lt.copies << "\n");
     }
@@ -229,7 +247,7 @@ void check_case(int ty, const Params& p, const std::vector<Item>& in, const char
                            << show_items(out, i > 4 ? i - 4 : 0, i + 5));
     }
     // every temporary destroyed
-    if (ty == 2) {
+    if (lifetime_checked(ty)) {
         PBT_CHECK(lt.live_before == (long)n, "C06/harness", "live-instance counter broken: " << lt.live_before << " != " << n);
         PBT_CHECK(lt.live_after == lt.live_before, "C06/temporaries-destroyed",
                   what << ": " << lt.live_before << " live element instances before the call, " << lt.live_after
@@ -252,11 +270,12 @@ void check_case(int ty, const Params& p, const std::vector<Item>& in, const char
 
 } // namespace
 
-PBT_PROPERTY(mergesort) {
-    // ---- selectors first -------------------------------------------------------------------
-    int ty = (int)src.range(0, 2);
+namespace {
+//! the generator of the targets mergesort / mergesort_iters after the element-type selector (draw order frozen)
+void small_case(pbt::Source& src, int ty, unsigned layout) {
     unsigned cfg = src.u8();
     Params p;
+    p.layout = layout;
     p.stable = cfg & 1;
     p.sampling = cfg & 2;
     p.greater = cfg & 4;
@@ -314,6 +333,25 @@ PBT_PROPERTY(mergesort) {
     }
 
     check_case(ty, p, in, VCLASS_NAME[vclass], ARR_NAME[arr], from_prng, nullptr);
+}
+} // namespace
+
+PBT_PROPERTY(mergesort) {
+    // ---- selectors first -------------------------------------------------------------------
+    int ty = (int)src.range(0, 2);
+    small_case(src, ty, 0);
+}
+
+// ITERATOR / TYPE classes (own target: the byte mapping of `mergesort` stays valid). The statement is over every input
+// range and element type: the same generator and oracles on a std::deque range (several 512-byte blocks, begin off
+// the block start), a std::reverse_iterator range over a vector, a raw-pointer range into the middle of an array, an
+// element type that owns a std::string (destructive move; live-instance counter) and a comparator that owns a
+// std::string, a std::vector and a std::function. The sorted range is a SUB-range: 0..2 guard elements on either side
+// must stay untouched.
+PBT_PROPERTY(mergesort_iters) {
+    int ty = 3 + (int)src.weighted({3, 2, 3, 2}); // deque<key+tag> | reverse_iterator | deque<string-record> | pointer-range<string-record>
+    unsigned layout = (unsigned)src.bits(2);
+    small_case(src, ty, layout);
 }
 
 // Scale classes (own target, so that the choice-byte mapping of `mergesort` and its stored witnesses stay valid).
